@@ -7,6 +7,7 @@ import (
 	"go/token"
 	"go/types"
 	"regexp"
+	"sort"
 	"strings"
 
 	"golang.org/x/tools/go/packages"
@@ -67,6 +68,105 @@ type Contract struct {
 	AssumedEnsures []*Clause
 	TrustPre    map[string]map[string]bool
 	TrustPreWhy map[string]string
+	// IfaceEnsures: postconditions of interface-protocol contracts (iface I.m) that this function, as the method m of
+	// a type implementing I, must establish too (behavioural subtyping). Only clauses over real state are inherited:
+	// a clause that speaks about ghost state of the interface-level abstraction (isOpen, sendN, ioFail, the clock …)
+	// cannot be proved on a body that does not maintain that ghost, and stays part of the interface assumption.
+	IfaceEnsures []ifaceClause
+}
+
+type ifaceClause struct {
+	Cl     *Clause
+	From   *Contract
+	Params []string // "self", then the interface method's parameter names
+}
+
+// abstractGhostCalls: specification functions that read ghost state
+var abstractGhostCalls = map[string]bool{"now": true, "ncalls": true, "lastres": true, "lastarg": true, "selb": true, "sel": true,
+	"nspawned": true, "done": true, "cancelled": true, "held": true, "ctxTimeout": true, "rangeidx": true}
+
+// linkIfaceRefinement attaches the ghost-free postconditions of every interface-protocol contract to the verified
+// contracts of the repository methods that implement the interface.
+func (w *World) linkIfaceRefinement() {
+	ghosts := map[string]bool{"clock": true, "wrN": true, "wrClock": true, "ioFail": true, "tcpDialed": true, "isOpen": true, "osOpen": true,
+		"rdSet": true, "closeN": true, "connKind": true}
+	for _, c := range w.allContracts {
+		for _, g := range c.Ghosts {
+			ghosts[g.Name] = true
+		}
+	}
+	ghostFree := func(cl *Clause) bool {
+		ok := true
+		ast.Inspect(cl.Expr, func(n ast.Node) bool {
+			switch x := n.(type) {
+			case *ast.Ident:
+				if ghosts[x.Name] {
+					ok = false
+				}
+			case *ast.CallExpr:
+				if id, isId := x.Fun.(*ast.Ident); isId && abstractGhostCalls[id.Name] {
+					ok = false
+				}
+			}
+			return ok
+		})
+		return ok
+	}
+	var keys []string
+	for k := range w.ifaceContracts {
+		keys = append(keys, k)
+	}
+	sort.Strings(keys)
+	for _, key := range keys {
+		ic := w.ifaceContracts[key]
+		i := strings.LastIndex(key, ".")
+		j := strings.LastIndex(key[:i], ".")
+		if i < 0 || j < 0 {
+			continue
+		}
+		pkgPath, iname, mname := key[:j], key[j+1:i], key[i+1:]
+		if ic.Pkg == nil || ic.Pkg.Pkg.Path() != pkgPath {
+			continue
+		}
+		obj := ic.Pkg.Pkg.Scope().Lookup(iname)
+		if obj == nil {
+			continue
+		}
+		it, ok := obj.Type().Underlying().(*types.Interface)
+		if !ok {
+			continue
+		}
+		var msig *types.Signature
+		for k := 0; k < it.NumMethods(); k++ {
+			if it.Method(k).Name() == mname {
+				msig = it.Method(k).Type().(*types.Signature)
+			}
+		}
+		if msig == nil {
+			continue
+		}
+		params := []string{"self"}
+		for k := 0; k < msig.Params().Len(); k++ {
+			params = append(params, msig.Params().At(k).Name())
+		}
+		for fn, c := range w.contracts {
+			if c.Trusted || !c.Verify || fn.Name() != mname || fn.Signature.Recv() == nil {
+				continue
+			}
+			if !types.Implements(fn.Signature.Recv().Type(), it) {
+				continue
+			}
+			have := map[string]bool{}
+			for _, e := range c.IfaceEnsures {
+				have[e.Cl.Label] = true
+			}
+			for _, cl := range ic.Ensures {
+				if ghostFree(cl) && !have[cl.Label] {
+					c.IfaceEnsures = append(c.IfaceEnsures, ifaceClause{Cl: cl, From: ic, Params: params})
+				}
+			}
+		}
+	}
 }
 
 // ghostUpd: NAME += EXPR at the release of monitor Mutex.
